@@ -61,15 +61,30 @@ static std::string spec(const char* op, std::initializer_list<long> v) {
 }
 
 // ---------------------------------------------------------------- slice read
-// kind: 0 real const, 1 real mutable, 2 cmplx const, 3 cmplx mutable; end_ph: use indexing::end
+// kind: 0 real const, 1 real mutable, 2 cmplx const, 3 cmplx mutable
+// spelling (end_ph): 0 slice(i1, i2, m); 1 slice(i1, indexing::end, m); and, for m == 1 only, the spellings that
+// rely on the DEFAULT step: 2 slice(i1, indexing::end); 3 slice(i1, i2)
 template<class T, bool Const>
-static bool read_slice(int n, int i1, int i2, int m, bool end_ph, std::vector<int>& got) {
+static bool read_slice(int n, int i1, int i2, int m, int end_ph, std::vector<int>& got) {
     base_array<T> x = iota<T>(n);
     const base_array<T>& cx = x;
     try {
         base_array<T> y;
-        if constexpr (Const) y = end_ph ? base_array<T>(cx.slice(i1, indexing::end, m)) : base_array<T>(cx.slice(i1, i2, m));
-        else y = end_ph ? base_array<T>(x.slice(i1, indexing::end, m)) : base_array<T>(x.slice(i1, i2, m));
+        if constexpr (Const) {
+            switch (end_ph) {
+            case 0: y = base_array<T>(cx.slice(i1, i2, m)); break;
+            case 1: y = base_array<T>(cx.slice(i1, indexing::end, m)); break;
+            case 2: y = base_array<T>(cx.slice(i1, indexing::end)); break;
+            default: y = base_array<T>(cx.slice(i1, i2)); break;
+            }
+        } else {
+            switch (end_ph) {
+            case 0: y = base_array<T>(x.slice(i1, i2, m)); break;
+            case 1: y = base_array<T>(x.slice(i1, indexing::end, m)); break;
+            case 2: y = base_array<T>(x.slice(i1, indexing::end)); break;
+            default: y = base_array<T>(x.slice(i1, i2)); break;
+            }
+        }
         got.clear();
         for (int i = 0; i < y.size(); ++i) got.push_back(idx_of(y[i]));
         return true;
@@ -78,10 +93,12 @@ static bool read_slice(int n, int i1, int i2, int m, bool end_ph, std::vector<in
     }
 }
 
-static void case_slice(int kind, int n, int i1, int i2, int m, bool end_ph) {
+static void case_slice(int kind, int n, int i1, int i2, int m, int end_ph) {
     std::vector<int> got;
-    const int e2 = end_ph ? n : i2;
-    const std::string js = spec(end_ph ? "slice_end" : "slice", {kind, n, i1, e2, m});
+    const bool ph = (end_ph == 1 || end_ph == 2);
+    const int e2 = ph ? n : i2;
+    static const char* const opname[] = {"slice", "slice_end", "slice_end_default_step", "slice_default_step"};
+    const std::string js = spec(opname[end_ph], {kind, n, i1, e2, m});
     vh::set_current("C04:crash:slice", js);
     bool ok;
     switch (kind) {
@@ -100,6 +117,7 @@ static void case_slice(int kind, int n, int i1, int i2, int m, bool end_ph) {
     } else
         out.corr(lhs, ok ? std::to_string(got.size()) + vh::join_ints(got) : "ERR");
     out.n_oracle++;
+    if (end_ph) out.stat(std::string("slice_spelling_") + opname[end_ph] + ((kind & 1) ? "_mutable" : "_const") + (m < 0 ? "_negstep" : m > 1 ? "_posstep" : ""));
     if (ok) {
         out.stat("slice_ok");
         out.stat("slice_count_" + std::to_string(got.size() > 4 ? 5 : got.size()) + (got.size() > 4 ? "plus" : ""));
@@ -140,6 +158,34 @@ static void case_copy(int n, int i1, int i2, int m) {
     }
 }
 
+// ---------------------------------------------------------------- the count rule of assignment (EXACT)
+// dc: element count of the destination slice; sc: element count of the right-hand side (array length, list length,
+// count of the source slice).  A scalar right-hand side has no count and is not judged here.
+//   dc != sc        the call MUST throw and MUST leave the array untouched — whatever the two numbers are, in particular
+//                   sc == 0 < dc (nothing to copy is NOT "nothing to check") and dc == 0 < sc;
+//                   accepted silently -> C04:count-mismatch-accepted, array modified -> C04:assign-count-mismatch
+//   dc == sc == 0   nothing designated, nothing to write: the array must be untouched.  For an ARRAY right-hand side the
+//                   implementation slices the (empty) array itself, "empty array" is one of the listed throwing
+//                   situations of slice(), so throwing and returning are both accepted there (`empty_may_throw`);
+//                   an empty list / an empty source slice of a non-empty array must be accepted (equal counts)
+//   dc == sc  > 0   must succeed and write exactly the designated cells (judged by the caller: `return false`)
+// form: the spelling of the right-hand side (statistics only)
+static bool judge_count(long dc, long sc, bool ok, bool untouched, bool empty_may_throw, const char* form, const std::string& js, const char* key_equal) {
+    if (dc != sc) {
+        out.stat(std::string("count_rel_") + (sc == 0 ? "src0_dst_pos" : dc == 0 ? "dst0_src_pos" : sc < dc ? "shorter" : "longer") + "_" + form);
+        if (ok) out.fail("C04:count-mismatch-accepted", js);
+        if (!untouched) out.fail("C04:assign-count-mismatch", js);
+        return true;
+    }
+    if (dc == 0) {
+        out.stat(std::string("count_rel_both_empty_") + (ok ? "noop_" : "threw_") + form);
+        if (!untouched) out.fail(key_equal, js);
+        if (!ok && !empty_may_throw) out.fail(key_equal, js);
+        return true;
+    }
+    return false;
+}
+
 // ---------------------------------------------------------------- assignment
 template<class T>
 static std::string dump(const base_array<T>& x) {
@@ -165,8 +211,9 @@ static void case_assign_slice(int n, int d1, int d2, int dm, int same, int n2, i
     vh::set_current("C04:crash:assign_slice", js);
     bool ok = true;
     try {
-        if (src_const) { const base_array<T>& cs = srcarr; x.slice(d1, d2, dm) = cs.slice(s1, s2, sm); }
-        else if (same) x.slice(d1, d2, dm) = x.slice(s1, s2, sm);
+        // a stop index equal to the length is spelled with the end placeholder (const / mutable overload, with step)
+        if (src_const) { const base_array<T>& cs = srcarr; if (s2 == ns) x.slice(d1, d2, dm) = cs.slice(s1, indexing::end, sm); else x.slice(d1, d2, dm) = cs.slice(s1, s2, sm); }
+        else if (same) { if (s2 == ns) x.slice(d1, d2, dm) = x.slice(s1, indexing::end, sm); else x.slice(d1, d2, dm) = x.slice(s1, s2, sm); }
         else x.slice(d1, d2, dm) = other.slice(s1, s2, sm);
     } catch (const std::exception&) { ok = false; }
     vh::clear_current();
@@ -175,12 +222,11 @@ static void case_assign_slice(int n, int d1, int d2, int dm, int same, int n2, i
              ok ? dump(x) : "ERR");
     out.n_oracle++;
     // oracle: copy source first
-    if (di.size() != si.size()) {
-        out.stat("assign_slice_count_mismatch");
+    {
         bool unchanged = true;
         for (int i = 0; i < n; ++i) unchanged = unchanged && (x[i] == before[i]);
-        if (ok || !unchanged) out.fail("C04:assign-count-mismatch", js);
-        return;
+        if (di.size() != si.size()) out.stat("assign_slice_count_mismatch");
+        if (judge_count(long(di.size()), long(si.size()), ok, unchanged, false, same ? "same_slice" : "other_slice", js, "C04:assign-slice")) return;
     }
     out.stat(same ? "assign_slice_same_array" : "assign_slice_other_array");
     bool overlap = false;
@@ -237,12 +283,13 @@ static void case_assign_value(int n, int d1, int d2, int dm, int kind, int len) 
     vh::set_current("C04:crash:assign_value", js);
     bool ok = true;
     try {
-        if (kind == 0) x.slice(d1, d2, dm) = mk<T>(200);
+        // a stop index equal to the length is spelled with the end placeholder (mutable overload, with step)
+        if (kind == 0) { if (d2 == n) x.slice(d1, indexing::end, dm) = mk<T>(200); else x.slice(d1, d2, dm) = mk<T>(200); }
         else if (kind == 1) {
             base_array<T> r(len);
             for (int i = 0; i < len; ++i) r[i] = mk<T>(200 + i);
-            x.slice(d1, d2, dm) = r;
-        } else apply_list<T>(x.slice(d1, d2, dm), len);
+            if (d2 == n) x.slice(d1, indexing::end, dm) = r; else x.slice(d1, d2, dm) = r;
+        } else apply_list<T>(d2 == n ? x.slice(d1, indexing::end, dm) : x.slice(d1, d2, dm), len);
     } catch (const std::exception&) { ok = false; }
     vh::clear_current();
     out.corr("asgv " + std::to_string(n) + " " + std::to_string(d1) + " " + std::to_string(d2) + " " + std::to_string(dm) + " " + std::to_string(kind) + " " + std::to_string(len),
@@ -254,14 +301,11 @@ static void case_assign_value(int n, int d1, int d2, int dm, int kind, int len) 
     if (count_ok) for (size_t j = 0; j < di.size(); ++j) want[di[j]] = mk<T>(kind == 0 ? 200 : 200 + int(j));
     bool eq = true;
     for (int i = 0; i < n; ++i) eq = eq && (x[i] == want[i]);
-    // corner: an EMPTY array on the right-hand side is itself sliced (`rhs.slice(0, 0)`), which is one of
-    // the listed throwing situations ("empty array"); throwing is then allowed, writing is not
-    if (kind == 1 && len == 0) { if (!eq) out.fail("C04:assign-value", js); }
-    else if (count_ok) { if (!ok || !eq) out.fail("C04:assign-value", js); }
-    else {
-        out.stat("assign_value_count_mismatch");
-        if (ok || !eq) out.fail("C04:assign-count-mismatch", js);
-    }
+    // the count rule is exact (judge_count): an EMPTY array on the right-hand side of a NON-empty slice is a count
+    // mismatch like any other and must throw; only (empty slice) = (empty array) may either throw or do nothing
+    if (!count_ok) out.stat("assign_value_count_mismatch");
+    if (kind != 0 && judge_count(long(di.size()), len, ok, eq, kind == 1, kind == 1 ? "array" : "list", js, "C04:assign-value")) return;
+    if (!ok || !eq) out.fail("C04:assign-value", js);
 }
 
 // ================================================================ value-carrying cases (bit for bit)
@@ -391,7 +435,9 @@ static void case_assign_slice_x(int mode, uint64_t seed, int n, Tri d, int same,
     const int ns = same ? n : n2;
     if (may_throw(n, d.i1, d.i2, d.m) || may_throw(ns, s.i1, s.i2, s.m)) return;
     const auto di = py_indices(n, d.i1, d.i2, d.m), si = py_indices(ns, s.i1, s.i2, s.m);
-    if (via >= 3 && si.empty()) via = 1;   // an empty temporary array cannot be sliced (listed throwing situation)
+    // (empty slice) = (empty temporary array): the array is itself sliced, a listed throwing situation -> spelled as slices;
+    // a NON-empty destination with an empty temporary array stays: the count mismatch must throw whatever the spelling
+    if (via >= 3 && si.empty() && di.empty()) via = 1;
     const std::string js = spec("assign_slice_x", {cplx ? 1 : 0, mode, long(seed), n, d.i1, d.i2, d.m, same, n2, s.i1, s.i2, s.m, via});
     base_array<T> x = mkarr<T>(mode, seed, 0, n);
     base_array<T> other = mkarr<T>(mode, seed, 1, same ? 0 : n2);
@@ -423,10 +469,10 @@ static void case_assign_slice_x(int mode, uint64_t seed, int n, Tri d, int same,
              ok ? bdump(x) : "ERR");
     out.n_oracle++;
     const char* sz = di.size() > 65536 ? "64k_plus" : di.size() > 4096 ? "4k_64k" : di.size() > 512 ? "512_4k" : di.size() > 8 ? "9_512" : "0_8";
-    if (di.size() != si.size()) {
-        out.stat("x_assign_slice_count_mismatch");
-        if (ok || !same_cells(x, before)) out.fail("C04:assign-count-mismatch", js);
-        return;
+    if (di.size() != si.size() || di.empty()) {
+        static const char* const forms[] = {"slice_mutable", "slice_const", "slice_named_copies", "slice_to_temporary_array", "slice_deref_temporary"};
+        if (di.size() != si.size()) out.stat("x_assign_slice_count_mismatch");
+        if (judge_count(long(di.size()), long(si.size()), ok, same_cells(x, before), false, forms[via], js, mode == 0 ? "C04:assign-slice" : "C04:assign-slice-bits")) return;
     }
     out.stat(std::string("x_assign_slice_") + (same ? "same" : "other") + "_count_" + sz);
     out.stat("x_assign_slice_via" + std::to_string(via));
@@ -502,12 +548,14 @@ static void case_assign_value_x(int mode, uint64_t seed, int n, Tri d, int kind,
     base_array<T> want = before;
     if (count_ok) for (size_t j = 0; j < di.size(); ++j) want[di[j]] = (kind == 0) ? scalar : r[int(j)];
     const bool eq = same_cells(x, want);
-    if ((kind == 1 || kind == 3) && len == 0) { if (!eq) out.fail("C04:assign-value-bits", js); }   // empty array: may throw, must not write
-    else if (count_ok) { if (!ok || !eq) out.fail(mode == 0 ? "C04:assign-value" : "C04:assign-value-bits", js); }
-    else {
-        out.stat("x_assign_value_count_mismatch");
-        if (ok || !eq) out.fail("C04:assign-count-mismatch", js);
+    const char* const key_eq = mode == 0 ? "C04:assign-value" : "C04:assign-value-bits";
+    if (!count_ok) out.stat("x_assign_value_count_mismatch");
+    // exact count rule: an empty array / list on a non-empty slice must throw like every other mismatch
+    if (kind != 0 && judge_count(long(di.size()), len, ok, eq, kind != 2, kind == 1 ? "named_array" : kind == 3 ? "temporary_array" : "list", js, key_eq)) {
+        if (out.n_cases % 5003 == 0) out.sample(js);
+        return;
     }
+    if (!ok || !eq) out.fail(key_eq, js);
     if (out.n_cases % 5003 == 0) out.sample(js);
 }
 
@@ -606,7 +654,8 @@ static void random_assign(vh::Rng& rng, int n, Tri d) {
     const long c = long(py_indices(n, d.i1, d.i2, d.m).size());
     const int mode = 1 + int(rng.next() % 2);
     const uint64_t seed = rng.next() >> 8;
-    const long cs = (rng.next() % 8 == 0) ? std::max(0L, c + (rng.coin() ? 1 : -1)) : c;   // count of the right-hand side
+    long cs = (rng.next() % 8 == 0) ? std::max(0L, c + (rng.coin() ? 1 : -1)) : c;   // count of the right-hand side
+    if (rng.next() % 24 == 0) cs = (rng.coin() || c == 0) ? 0 : c / 2;                // ... empty / half as long, whatever the destination
     const T sc = rng.coin() ? content<T>(1, seed, 1, int(rng.next() % 1000)) : pool_value<T>(int(rng.next() % 32), rng.next() % 4 ? RPOOL[rng.next() % 8] : int(rng.next() % 32));
     Tri s{0, 0, 1};
     const int sel = int(rng.next() % 6);
@@ -677,7 +726,14 @@ static void history(vh::Rng& rng, int n, int steps) {
                 x.slice(d.i1, d.i2, d.m) = r;
                 break;
             }
-            case 3: expect_throw = true; x.slice(d.i1, d.i2, d.m) = mkarr<T>(1, seed, 1, int(c) + 1 + int(rng.next() % 3)); break;      // longer array
+            case 3: {   // longer array; shorter array; EMPTY array on a non-empty slice; empty same-array slice on a non-empty slice
+                const int sel = int(rng.next() % 4);
+                if (sel == 0 || c == 0) { expect_throw = true; x.slice(d.i1, d.i2, d.m) = mkarr<T>(1, seed, 1, int(c) + 1 + int(rng.next() % 3)); }
+                else if (sel == 1) { expect_throw = true; x.slice(d.i1, d.i2, d.m) = mkarr<T>(1, seed, 1, int(rng.next() % uint64_t(c))); }
+                else if (sel == 2) { expect_throw = true; const base_array<T> e; if (rng.coin()) x.slice(d.i1, d.i2, d.m) = e; else x.slice(d.i1, d.i2, d.m) = base_array<T>(0); }
+                else { expect_throw = true; const int p = rng.range(0, n - 1); x.slice(d.i1, d.i2, d.m) = x.slice(p, p, rng.coin() ? 1 : -2); }
+                break;
+            }
             case 4: {   // same-array slice with one element more or fewer
                 Tri s2{0, 0, 1};
                 const long c2 = (c > 0 && rng.coin()) ? c - 1 : c + 1;
@@ -729,8 +785,15 @@ int main(int argc, char** argv) {
         for (int i1 = -n - 3; i1 <= n + 3; ++i1)
             for (int i2 = -n - 3; i2 <= n + 3; ++i2)
                 for (int m = -5; m <= 5; ++m) {
-                    for (int kind = 0; kind < 4; ++kind) case_slice(kind, n, i1, i2, m, false);
-                    if (i2 == n) for (int kind = 0; kind < 4; ++kind) case_slice(kind, n, i1, i2, m, true);
+                    for (int kind = 0; kind < 4; ++kind) case_slice(kind, n, i1, i2, m, 0);
+                    // the end placeholder: const and mutable overloads, every step of the box (zero and negative steps
+                    // must throw: the stop resolves to n, above every valid start) ...
+                    if (i2 == n) for (int kind = 0; kind < 4; ++kind) case_slice(kind, n, i1, i2, m, 1);
+                    // ... and the spellings that leave the step to the default argument
+                    if (m == 1) for (int kind = 0; kind < 4; ++kind) {
+                        if (i2 == n) case_slice(kind, n, i1, i2, m, 2);
+                        case_slice(kind, n, i1, i2, m, 3);
+                    }
                     if (n <= (a.thorough ? 10 : 5)) { case_copy<real_t>(n, i1, i2, m); case_copy<cmplx_t>(n, i1, i2, m); }
                 }
     // enumerate valid slices of an n-array once (canonical triples from the box)
@@ -796,7 +859,8 @@ int main(int argc, char** argv) {
             out.stat("slice_extreme_stride");
         }
         if (rng.next() % 80 == 0) { (rng.coin() ? i1 : i2) = rng.coin() ? (1 << 30) : -(1 << 30); out.stat("slice_extreme_index"); }
-        case_slice(int(rng.next() % 4), n, i1, i2, m, false);
+        case_slice(int(rng.next() % 4), n, i1, i2, m, 0);
+        if (i2 == n && rng.coin()) case_slice(int(rng.next() % 4), n, i1, i2, m, m == 1 && rng.coin() ? 2 : 1);   // end placeholder on large arrays
         // ... and assignment through the same random slice (every right-hand-side kind, bit for bit)
         if (r % 2 == 0 && n > 0 && m != 0 && (a.thorough || n <= 20000 || r % 3 == 0)) {
             if (rng.next() % 3) random_assign<real_t>(rng, n, Tri{i1, i2, m});
@@ -871,6 +935,75 @@ int main(int argc, char** argv) {
                 const uint64_t seed = rng.next() >> 8;
                 if (seed & 2) case_assign_slice_x<real_t>(1 + int(seed & 1), seed, n, dt, 0, n2, Tri{s[0], s[1], s[2]}, int(rng.next() % 5));
                 else case_assign_slice_x<cmplx_t>(1 + int(seed & 1), seed, n, dt, 0, n2, Tri{s[0], s[1], s[2]}, int(rng.next() % 5));
+            }
+        }
+    }
+    // (c0) the ZERO-count relations, systematically: every destination slice of a small array x EVERY spelling of a
+    //      right-hand side that has a count (named / temporary array, braced list, slice of another array and of the same
+    //      array through mutable / const slices, named slice objects and copies, slices materialised into temporaries):
+    //        destination count > 0, source count 0   -> must throw, nothing written
+    //        destination count 0, source count 1, 2, n -> must throw, nothing written
+    //        both 0                                   -> nothing written (arrays: may throw)
+    for (int n = 1; n <= (a.thorough ? 8 : 5); ++n) {
+        const auto vs = valid(n);
+        for (auto& d : vs) {
+            const int dn = int(py_indices(n, d[0], d[1], d[2]).size());
+            const Tri dt{d[0], d[1], d[2]};
+            std::vector<int> lens = {0};
+            if (dn == 0) { lens.push_back(1); if (n >= 2) lens.push_back(2); if (n > 2) lens.push_back(n); }
+            for (int len : lens) {
+                for (int ty = 0; ty < 2; ++ty) {
+                    if (!a.thorough && n > 3 && (d[0] < 0 || d[1] < 0) && ty == 0) continue;   // quick: negative spellings of n = 4, 5 complex only
+                    const uint64_t seed = rng.next() >> 8;
+                    const int mode = 1 + int(seed & 1);
+                    for (int kind = 1; kind <= 3; ++kind) {
+                        if (ty == 0) case_assign_value_x<real_t>(mode, seed, n, dt, kind, len, real_t(0));
+                        else case_assign_value_x<cmplx_t>(mode, seed, n, dt, kind, len, cmplx_t(0, 0));
+                    }
+                    for (int via = 0; via < 5; ++via) {
+                        // slice of another array (length len + 0..2, at least 1) and of the same array, count `len`
+                        Tri so{0, 0, 1}, ss{0, 0, 1};
+                        const int n2 = std::max(1, len + int(rng.next() % 3));
+                        const int sm = rng.coin() ? 1 : -1;
+                        if (make_fit(n2, len, (len > 1 && len + 1 > n2) ? 1 : sm, rng, so)) {
+                            if (ty == 0) case_assign_slice_x<real_t>(mode, seed, n, dt, 0, n2, so, via);
+                            else case_assign_slice_x<cmplx_t>(mode, seed, n, dt, 0, n2, so, via);
+                        }
+                        if (make_fit(n, len, (len > 1 && len + 1 > n) ? 1 : sm, rng, ss)) {
+                            if (ty == 0) case_assign_slice_x<real_t>(mode, seed, n, dt, 1, n, ss, via);
+                            else case_assign_slice_x<cmplx_t>(mode, seed, n, dt, 1, n, ss, via);
+                        }
+                    }
+                }
+            }
+        }
+    }
+    //      ... and on long arrays (a fast path may look at the count of one side only): unit / reversed / strided destinations
+    for (int n : {64, 1000, 4096, 65537, 131075}) {
+        if (!a.thorough && n == 131075) continue;
+        const std::vector<Tri> ds = {Tri{0, n, 1}, Tri{1, n - 1, 1}, Tri{n - 1, 0, -1}, Tri{0, n, 2}, Tri{n - 2, 1, -3}, Tri{5, 5, 1}, Tri{n - 1, n - 1, -1}, Tri{0, 0, 7}};
+        for (const Tri& d : ds) {
+            const bool dempty = (d.i1 == d.i2);
+            for (int len : {0, 1, n / 2, n}) {
+                if (!dempty && len != 0) continue;
+                const uint64_t seed = rng.next() >> 8;
+                const int mode = 1 + int(seed & 1);
+                for (int kind = 1; kind <= 3; ++kind) {
+                    if (kind == 2 && len > 14) continue;
+                    case_assign_value_x<real_t>(mode, seed, n, d, kind, len, real_t(0));
+                    if (n <= 4096 || a.thorough) case_assign_value_x<cmplx_t>(mode, seed, n, d, kind, len, cmplx_t(0, 0));
+                }
+                for (int via = 0; via < 5; ++via) {
+                    Tri ss{0, 0, 1};
+                    if (!make_fit(n, len, rng.coin() ? 1 : -1, rng, ss)) continue;
+                    if ((via + n) & 1) case_assign_slice_x<real_t>(mode, seed, n, d, 1, n, ss, via);
+                    else case_assign_slice_x<cmplx_t>(mode, seed, n, d, 1, n, ss, via);
+                    Tri so{0, 0, 1};
+                    const int n2 = std::max(2, len + 1);
+                    if (!make_fit(n2, len, 1, rng, so)) continue;
+                    if ((via + n) & 1) case_assign_slice_x<cmplx_t>(mode, seed, n, d, 0, n2, so, via);
+                    else case_assign_slice_x<real_t>(mode, seed, n, d, 0, n2, so, via);
+                }
             }
         }
     }
